@@ -236,27 +236,45 @@ PROPS["C38"] = {
 PROPS["C36"] = {
     "level": "proof",
     "engine": "verus",
-    "technique": "Verus requires/ensures + representation invariant on TreadMill's operations, mechanically extracted from /repo each run; client lemma over the contracts",
+    "technique": "Verus requires/ensures + representation invariants on TreadMill's operations AND on the LargeObjectSpace functions that drive it "
+                 "(initialize_object_metadata, prepare, trace_object, test_and_mark, release), mechanically extracted from /repo each run; whole-GC-cycle client lemmas over the contracts",
     "anchors": [("TreadMillSync", "src/util/treadmill.rs"), ("copy", "src/util/treadmill.rs"), ("flip", "src/util/treadmill.rs"),
-                ("collect_nursery", "src/util/treadmill.rs"), ("add_to_treadmill", "src/util/treadmill.rs")],
-    "verus": ["treadmill"],
+                ("collect_nursery", "src/util/treadmill.rs"), ("add_to_treadmill", "src/util/treadmill.rs"),
+                ("initialize_object_metadata", "src/policy/largeobjectspace.rs"), ("trace_object", "src/policy/largeobjectspace.rs"),
+                ("test_and_mark", "src/policy/largeobjectspace.rs"), ("sweep_large_pages", "src/policy/largeobjectspace.rs")],
+    "verus": ["treadmill", "los"],
     "functions": ["TreadMill::{add_to_treadmill, collect_nursery, collect_mature, copy, flip, is_to_space_empty, is_from_space_empty, "
                   "is_alloc_nursery_empty, is_collect_nursery_empty} (bodies extracted verbatim, re-homed on TreadMillSync)",
-                  "client lemma gc_cycle (one LOS collection written against the contracts only)"],
-    "explanation": "Representation invariant wf = the four sets are pairwise disjoint. Every operation has requires old.wf() (+ the "
+                  "LargeObjectSpace::{initialize_object_metadata, prepare, release, trace_object, test_and_mark, test_mark_bit, is_in_nursery, is_marked} "
+                  "(bodies extracted; metadata accessor calls redirected to a contract-carrying field, see rule_firings)",
+                  "client lemma gc_cycle (one LOS collection written against the treadmill contracts only)",
+                  "client lemma los_gc_cycle (one LOS collection through the real prepare / trace_object* / release)"],
+    "explanation": "Treadmill layer: representation invariant wf = the four sets are pairwise disjoint. Every operation has requires old.wf() (+ the "
                    "membership preconditions from its debug_assert!s) and ensures final.wf() together with the exact value of each of the "
-                   "four sets (whole-view postcondition, frame included). The client lemma gc_cycle calls only these contracts: flip; copy "
-                   "of each marked object once; collect_nursery [; collect_mature] and proves that exactly (collected sets minus marked) is "
-                   "swept, the swept objects are in no treadmill set afterwards (cannot be swept twice), every marked object is in to_space, "
-                   "and nothing else is lost. Unbounded in the number of objects (loop invariants) and, by induction over cycles, histories.",
+                   "four sets (whole-view postcondition, frame included). LargeObjectSpace layer (unit los, on top of those contracts): invariants tie the "
+                   "2-bit mark/nursery field of every object to the set holding it (nursery bit set <=> in a nursery set; between GCs every object carries the "
+                   "current mark state; during a GC to_space = marked, from_space / collect_nursery = not yet marked). initialize_object_metadata files a fresh "
+                   "object in the allocation nursery with the nursery bit, or in to_space when allocated as live; prepare flips mark state and sets and establishes the "
+                   "GC invariant; trace_object on ANY treadmill object moves it to to_space and enqueues it exactly when it is in a collected set and not yet marked "
+                   "(its call of TreadMill::copy meets copy's membership preconditions -- the debug_assert!s), and leaves everything unchanged otherwise; "
+                   "test_and_mark returns true iff the masked old field differed and then leaves exactly the mark state; release re-establishes the mutator invariant. "
+                   "Client lemma los_gc_cycle: for any sequence of treadmill objects presented to trace_object, in any order and with repetitions, a full-heap GC keeps "
+                   "exactly the presented objects, a nursery GC keeps the mature objects plus the presented nursery objects, and all collected sets end empty. "
+                   "Unbounded in the number of objects (loop invariants) and, by induction over cycles, histories. Vacuity: three canary functions with the same "
+                   "preconditions and `ensures false` must fail on every run.",
     "bounds": ["none"],
     "assumptions": ["the Mutex acquisition is dropped by extraction: mutual exclusion of the operations is assumed, not verified",
-                    "objects passed to add_to_treadmill are fresh (not already in the treadmill)",
-                    "marked objects are copied exactly once each (C18) and come from the collected sets"],
+                    "objects passed to initialize_object_metadata / add_to_treadmill are fresh (not already in the treadmill)",
+                    "sequential semantics: &self methods mutating through atomics are rendered as &mut self; overlapping trace_object calls on the same object rely on C18",
+                    "LargeObjectSpace::sweep_large_pages is NOT verified (for-loop over a HashSet by value, page release): assumed to have the treadmill effect of the collect_* call it makes",
+                    "termination of test_and_mark's retry loop is not verified"],
     "trusted_base": ["vstd specifications of std::collections::HashSet and core::mem::swap", "assume_specification of core::mem::take; axiom HashSet::default() is empty",
                      "axiom: ObjectReference obeys the hash key model; ObjectReference modelled as an opaque key",
+                     "LosMeta (external_body): load_atomic / store_atomic / compare_exchange_metadata of LOCAL_LOS_MARK_NURSERY_SPEC as independent 2-bit fields -- the contract C20/C23 prove on the real accessors; axiom: a 2-bit field is <= 3",
+                     "LogBits (external_body, opaque), Space::should_allocate_as_live, ObjectQueue::enqueue appends",
                      "the extraction rewrite rules listed in the evidence (rule_firings)"],
-    "not_covered": ["enumerate_objects (dyn visitor)", "LargeObjectSpace's use of the treadmill (mark/nursery bits, page release) - whole-space"],
+    "not_covered": ["enumerate_objects (dyn visitor)", "sweep_large_pages body and page release (FreeListPageResource)", "LargeObjectSpace::new and SFT/Space plumbing; vo_bit feature statements",
+                    "concurrent tracers of one object"],
 }
 
 PROPS["C37"] = {
